@@ -280,9 +280,11 @@ class FileProxy:
     so that a kill can neutralise it. Writes go to the real object (kernel sees them when the
     buffer is flushed - exactly like in the real process)."""
 
-    def __init__(self, real, label):
+    def __init__(self, real, label, shared=False):
         object.__setattr__(self, '_r', real)
         object.__setattr__(self, '_label', label)
+        object.__setattr__(self, '_shared', shared)
+        object.__setattr__(self, '_nread', 0)
         x = cur()
         a = x.me() if x else None
         if a is not None:
@@ -314,6 +316,30 @@ class FileProxy:
         self.close()
         return False
 
+    def _pt(self, what):
+        """read/truncate/flush of a shared file are system calls other actors can observe"""
+        x = cur()
+        if self._shared and x is not None and x.me() is not None:
+            return x.point(what, self._label)
+        return None
+
+    def read(self, *a):
+        n = self._nread
+        object.__setattr__(self, '_nread', n + 1)
+        if n < MAX_READ_POINTS and self._pt('read') == 'dead':
+            return b'' if 'b' in getattr(self._r, 'mode', 'b') else ''
+        return self._r.read(*a)
+
+    def truncate(self, *a):
+        if self._pt('truncate') == 'dead':
+            return 0
+        return self._r.truncate(*a)
+
+    def flush(self):
+        if self._pt('flush') == 'dead':
+            return None
+        return self._r.flush()
+
     def __getattr__(self, n):
         return getattr(self._r, n)
 
@@ -322,6 +348,9 @@ class FileProxy:
 
     def __iter__(self):
         return iter(self._r)
+
+
+MAX_READ_POINTS = 2
 
 
 class NameSeq:
@@ -361,7 +390,7 @@ def open_proxy(name, mode='r', *a, **k):
         if x.point('open', _d((name, mode))) == 'dead':
             return FileProxy(builtins.open(os.devnull, 'rb' if 'b' in mode else 'r') if 'r' in mode and '+' not in mode
                              else builtins.open(os.devnull, mode), 'dead')
-        return FileProxy(builtins.open(name, mode, *a, **k), 'f:' + os.path.basename(str(name)))
+        return FileProxy(builtins.open(name, mode, *a, **k), 'f:' + os.path.basename(str(name)), shared=True)
     return builtins.open(name, mode, *a, **k)
 
 
